@@ -17,6 +17,7 @@ ANCHORS = ['pycaption.dfxp.base:DFXPReader._convert_tag_to_node',
            'pycaption.sami:SAMIReader._translate_tag',
            'pycaption.webvtt:WebVTTReader._decode', 'pycaption.srt:SRTReader.read',
            'pycaption.microdvd:MicroDVDReader.read']
+THOROUGH_SCALE = 4        # random budgets of the thorough tier are multiplied by this
 REQUIRE = {'docs_srt': 20, 'docs_webvtt': 20, 'docs_dfxp': 20, 'docs_sami': 20, 'docs_microdvd': 20,
            'lines_compared': 2000, 'lines_with_reference': 200, 'lines_with_inline_tag': 100,
            'lines_with_unknown_tag': 10, 'lines_with_voice': 5, 'lines_with_double_escape': 20,
